@@ -27,7 +27,15 @@ func (dst *footprintScanner) scanDirectory(logger Logger, dir string, visited ma
 		// load the information, following potential symoblic links
 		info, err := os.Stat(path)
 		if err != nil {
-			return err
+			// a dangling symbolic link, or a file removed since the directory was read:
+			// ignore it and keep scanning
+			logger.Printf("error reading font file %q: %v", path, err)
+			return nil
+		}
+
+		// never open a named pipe, a device or a socket
+		if !info.Mode().IsRegular() {
+			return nil
 		}
 
 		// always ignore files which should never be font files
@@ -35,9 +43,12 @@ func (dst *footprintScanner) scanDirectory(logger Logger, dir string, visited ma
 			return nil
 		}
 
-		err = dst.consume(path, info)
+		if err = dst.consume(path, info); err != nil {
+			// an unreadable file: ignore it and keep scanning
+			logger.Printf("error reading font file %q: %v", path, err)
+		}
 
-		return err
+		return nil
 	}
 
 	err := filepath.WalkDir(dir, walkFn)
